@@ -202,6 +202,7 @@ where
         v.hsblocks = crate::verif::vec_of(&self.Hsblocks);
         v.diagonal_regularizer = crate::verif::f64_of(self.diagonal_regularizer);
         v.ldl_reg = self.ldlsolver.verif_reg();
+        v.ldl_values = self.ldlsolver.verif_values();
         Some(v)
     }
 
